@@ -28,19 +28,41 @@ def gen_partition_case(seed, idx, wellformed=True, max_nodes=260, force=None):
     if kind in ("kary", "randKary"):
         case.tags[f"K={K}"] += 1
     arity = {"binary": 2, "randBinary": 2, "dimBinary": 2 ** d, "kary": K, "randKary": K}[kind]
+    # a quarter of the well-formed cases descend along one branch (towards 0, a corner, a point, or a fixed child
+    # position) far deeper than a random op sequence gets: index labels beyond 2^63, cells at float resolution
+    shape = force.get("shape") or ("chain" if (wellformed and rnd.random() < 0.25) else "random")
+    chain = None
+    if shape == "chain":
+        pol = force.get("policy") or rnd.choice(["first", "last", "mid", "zero", "zero", "point", "corner"])
+        tgt = None
+        if pol == "zero":
+            tgt = [min(max(0.0, lo), hi) for lo, hi in box]
+        elif pol == "point":
+            tgt = [lo + rnd.random() * (hi - lo) for lo, hi in box]
+        elif pol == "corner":
+            tgt = [rnd.choice([lo, hi]) for lo, hi in box]
+        depth_goal = min(force.get("chain_depth") or rnd.choice([12, 25, 40, 60]), 700 // arity)
+        chain = {"pol": pol, "tgt": tgt, "cur": None}
+        meta.update(shape="chain", policy=pol, chain_depth=depth_goal)
+        max_nodes = 1000
+        case.tags[f"chain={pol}"] += 1
     ops_done = []
     with RngCtl(rnd, qmode=qmode) as rng:
         cls = make_partition_class(kind, K, rng)
         part = cls(domain=[list(iv) for iv in box])
         case.op(f"P.init {kind_str(kind, K)} {box_str(box)}", "ok")
         case.op("P.dump", dump_part(part))
-        nops = rnd.randint(2, 9)
+        nops = rnd.randint(2, 9) if chain is None else depth_goal
+        if chain is not None:
+            chain["cur"] = part.get_root()
         for step in range(nops):
             n_nodes = len(part._all)
             deepest = part.get_node_list()[part.get_depth()] if part.get_depth() < len(part.get_node_list()) else []
             can_deepen = n_nodes + len(deepest) * arity <= max_nodes
             mark = len(part._calls)
-            if wellformed:
+            if chain is not None:
+                opk = ("mk", chain["cur"], chain["cur"].get_depth() >= part.get_depth())
+            elif wellformed:
                 lv = leaves_of(part)
                 if can_deepen and rnd.random() < 0.3:
                     opk = ("deepen",)
@@ -84,6 +106,19 @@ def gen_partition_case(seed, idx, wellformed=True, max_nodes=260, force=None):
                 break
             case.op(line, "ok")
             case.op("P.dump", dump_part(part))
+            if chain is not None:
+                kids_ = chain["cur"].get_children() or []
+                if not kids_:
+                    pass
+                elif chain["pol"] == "first":
+                    chain["cur"] = kids_[0]
+                elif chain["pol"] == "last":
+                    chain["cur"] = kids_[-1]
+                elif chain["pol"] == "mid":
+                    chain["cur"] = kids_[len(kids_) // 2]
+                else:
+                    inside = [k for k in kids_ if all(lo <= x <= hi for x, (lo, hi) in zip(chain["tgt"], k.get_domain()))]
+                    chain["cur"] = rnd.choice(inside) if inside else rnd.choice(kids_)
             if wellformed:
                 # arity of every split cell of the tree (a child list may grow after the split that created it)
                 arity_now = {"binary": 2, "randBinary": 2, "dimBinary": 2 ** d, "kary": K, "randKary": K}[kind]
